@@ -179,8 +179,8 @@ DEFAULT_LAYOUT = {"doc_indent": "", "cmd_indent": "", "arg_sep": " ", "after_ope
                   "between": "\n", "doc_cmd": "\n", "eol": "\n", "head": "", "tail": "\n", "leader": True}
 
 
-def render_doc(lines, module_name, indent="", leader=True):
-    first = "#[[[" if module_name is None else ("#[[[ @module" + (" " + module_name if module_name else ""))
+def render_doc(lines, module_name, indent="", leader=True, module_gap=" "):
+    first = "#[[[" if module_name is None else ("#[[[" + module_gap + "@module" + (" " + module_name if module_name else ""))
     body = []
     for l in lines:
         if leader:
@@ -226,7 +226,7 @@ def flat_tokens(its, lay):
     toks, kinds = [], []
     for it in its:
         if it[0] == "doc":
-            toks.append(render_doc(it[1], it[2], lay["doc_indent"], lay["leader"]))
+            toks.append(render_doc(it[1], it[2], lay["doc_indent"], lay["leader"], lay.get("module_gap", " ")))
             kinds.append("doc" if it[2] is None else "moddoc")
         elif it[0] == "comment":
             toks.append(it[1])
